@@ -281,9 +281,9 @@ func (b *Broker[T]) Stop() {
 // Wait blocks until either the context has been canceled, or all work
 // has been completed.
 func (b *Broker[T]) Wait(ctx context.Context) {
-	b.mu.Lock()
-	defer b.mu.Unlock()
-
+	// Wait does not take b.mu: holding it while blocked would make a
+	// concurrent Stop (which needs the mutex) wait for Wait to
+	// return, and fun.WaitGroup is safe for concurrent use.
 	b.wg.Wait(ctx)
 }
 
